@@ -716,11 +716,13 @@ def check(repo, run, tier):
     g(r7, repo, run)
     g(mr.propagation_table, repo, run, 'C07.R7', 'safe')
     g(unitrules.node_init_table, repo, run, 'C07.R6')
+    g(unitrules.strict_block_errors, repo, run, 'C07.R3')
     g.done()
 
 
 def mutants(repo):
     return [
+        Mutant('unsafe-error-swallowed-in-strict-block', lambda r: in_func(r, 'EvalContext.require_all_safe', "        except errors.UnsafeError as e:\n            raise errors.EvalError(", "        except errors.UnsafeError as e:\n            pass\n        except ZeroDivisionError as e:\n            raise errors.EvalError("), ['C07.R3']),
         Mutant('F20-reverted-descendants-unchecked', lambda r: in_func(r, 'EvalContext.get_node', "if not path or unsafe_path == str(path) or unsafe_path.startswith(str(path) + '.') or unsafe_path.startswith(str(path) + '['):", "if unsafe_path == str(path):"), ['C07.R4c']),
         Mutant('call-gate-removed', lambda r: delete_stmt(r, 'CallNode.ayns.on_evaluate_impl', lambda t: '_require_safe' in t), ['C07.R1']),
         Mutant('import-gate-removed', lambda r: delete_stmt(r, 'ImportNode.ayns.on_evaluate_impl', lambda t: '_require_safe' in t), ['C07.R1']),
